@@ -836,6 +836,14 @@ def _poly(t, bset, cache, depth=0):
             return out
         if k == z3.Z3_OP_UMINUS:
             return [_neg(m) for m in _poly(ch[0], bset, cache, depth + 1)]
+        if k == z3.Z3_OP_ITE and not _contains(ch[0], bset, cache):
+            # condition free of bound variables: If(c, a, b) = [c]*a + [not c]*b
+            one, zero = z3.RealVal(1), z3.RealVal(0)
+            pa = _poly(ch[1], bset, cache, depth + 1)
+            pb = _poly(ch[2], bset, cache, depth + 1)
+            return [_Mono(_mulc(z3.If(ch[0], one, zero), m.coef), m.facs, m.extra, m.delta) for m in pa] + [
+                _Mono(_mulc(z3.If(ch[0], zero, one), m.coef), m.facs, m.extra, m.delta) for m in pb
+            ]
         if k == z3.Z3_OP_ITE:
             dc = _delta_cond(ch[0], bset, cache)
             if dc is not None:
@@ -949,7 +957,15 @@ def _sum_mono(var, lo, hi, m):
             others = [b for b in bvars if b[0].get_id() != v.get_id()]
             guard = z3.If(z3.And(t >= l, t < h), z3.RealVal(1), z3.RealVal(0))
             facs = [z3.substitute(f, (v, t)) for f in m.facs]
-            rest = [(dv, z3.substitute(dt, (v, t))) for dv, dt in rest]
+            rest2 = []
+            for dv, dt in rest:
+                dt = z3.substitute(dt, (v, t))
+                if dv.get_id() == v.get_id():
+                    # second delta on the same (now eliminated) variable: a plain condition
+                    guard = guard * z3.If(t == dt, z3.RealVal(1), z3.RealVal(0))
+                else:
+                    rest2.append((dv, dt))
+            rest = rest2
             others = [(ov, z3.substitute(ol, (v, t)), z3.substitute(oh, (v, t))) for ov, ol, oh in others]
             oset = {ov.get_id() for ov, _, _ in others}
             cache = {}
